@@ -27,8 +27,15 @@ def generate(rng, tier):
         preds.append(('triangle', [dab, dbc, dac, [a, b, c]]))
         # inversion
         rad = r.choice([1.0, 1e-4, 1e4, r.logu(1e-4, 1e4)])
-        k = r.below(5)
-        if k == 0:
+        k = r.below(6)
+        if k == 5:
+            # a small circle around a centre close to the origin, the point a relative 1e-7..1e-6 off the circle
+            # (absolutely closer than 1e-10 to it): the inversion is well conditioned there and must move the point
+            rad = r.choice([1e-4, 2e-4, 1e-4 * r.uniform(1.0, 9.0)])
+            c = P.add('GNewAngle', P.f(r.choice([0.0, rad * r.uniform(0.0, 1.0)])), canon_angle(P, r, False))
+            off = P.add('GNewAngle', P.f(rad * (1.0 + r.choice([1, -1]) * r.choice([2e-7, 5e-7, 9e-7]))), canon_angle(P, r, False))
+            p = P.add('GAdd', 0, c, off)
+        elif k == 0:
             p = c                                            # the centre itself: documented panic
         elif k == 1:
             off = P.add('GNewAngle', P.f(rad), canon_angle(P, r, False))
